@@ -178,6 +178,7 @@ Definition judge_sp (rec : list Z) : Z :=
       let unlimited := maxred <? 0 in
       (* verdict flag *)
       if wv && (v =? 2) then 71
+      else if wv && negb ((v =? 0) || (v =? 1)) then 1
       else if wv && unlimited && negb (Bool.eqb (v =? 1) truth) then 72
       else
       (* reductions *)
